@@ -39,7 +39,7 @@ def rule_generated(src, rep, counts):
     from ..fold import new_interp
     from ..models import cells
     from ..par import pmap
-    it = new_interp(src)
+    it = new_interp(src, check_views=True)
     f = src.func("formatstring", "FmtStr.split")
     maxlen = 4 if rep.tier == "thorough" else 3
     A1, A2 = {"fg": 31}, {"bg": 44, "bold": True}
@@ -274,7 +274,7 @@ def rule_join(src, rep, counts):
     from ..fold import new_interp
     from ..models import cells
     import itertools
-    it = new_interp(src)
+    it = new_interp(src, check_views=True)
     f = src.func("formatstring", "FmtStr.join")
     kinds = {"empty str": lambda: "", "str": lambda: "ab", "empty FmtStr": lambda: mk(it, ("", {})),
              "FmtStr": lambda: mk(it, ("c", {"fg": 32}), ("d", {"bold": True}))}
@@ -317,7 +317,7 @@ def rule_just(src, rep, counts):
     text must be str.ljust/rjust of the text and every original character keeps its formatting."""
     from ..fold import new_interp
     from ..models import cells
-    it = new_interp(src)
+    it = new_interp(src, check_views=True)
     texts = ["ab", "\uff25a", "a\u0301b", "x"]
     layouts = []
     for t in texts:
@@ -369,7 +369,7 @@ def rule_split(src, rep, counts):
     import re as _re
     from ..fold import new_interp
     from ..models import cells
-    it = new_interp(src)
+    it = new_interp(src, check_views=True)
     f = src.func("formatstring", "FmtStr.split")
     layouts = [
         [("a,b", {"fg": 31})], [("a,", {"fg": 31}), (",,b", {"bg": 44})], [(",a,", {})], [("aaa", {"bold": True})], [("a b  c", {"fg": 34})],
@@ -461,7 +461,7 @@ def rule_shared_complete(src, rep, counts):
     non-empty - with an empty first run the pinned code reports nothing, which is sound but incomplete and left alone)."""
     from ..fold import new_interp
     import itertools
-    it = new_interp(src)
+    it = new_interp(src, check_views=True)
     f = src.func("formatstring", "FmtStr.shared_atts")
     dom = [{}, {"fg": 31}, {"fg": 31, "bold": True}, {"fg": 32, "bold": True}]
     n = bad = 0
